@@ -64,6 +64,29 @@ func condX(db *gorm.DB, op *Op) (interface{}, []interface{}) {
 		return c + " <= ?", []interface{}{clause.Column{Name: "c3"}}
 	case "gexpr":
 		return c + " >= ?", []interface{}{gorm.Expr("? - 1", n)}
+	case "mapss":
+		return map[string]string{c: fmt.Sprint(n)}, nil
+	case "colonly":
+		return c, []interface{}{n}
+	case "nospace":
+		return c + ">=1", nil
+	case "valuer":
+		return c + " >= ?", []interface{}{sql.NullInt64{Int64: n, Valid: true}}
+	case "bytes":
+		return c + " >= ?", []interface{}{[]byte(fmt.Sprint(n))}
+	case "structs":
+		return []TX{{C1: n % 3}, {C1: (n + 1) % 3, C3: 4}}, nil
+	case "structsel":
+		return &TX{C1: n % 3}, []interface{}{"C1", "C2"}
+	case "inempty":
+		return c + " IN ?", []interface{}{[]int64{}}
+	case "incols":
+		return clause.IN{Column: []clause.Column{{Name: "c1"}, {Name: "c2"}}, Values: []interface{}{[]interface{}{n % 3, 7 - n}, []interface{}{1, 6}}}, nil
+	case "exprcol":
+		return clause.Gte{Column: clause.Expr{SQL: "c1 + ?", Vars: []interface{}{1}}, Value: n}, nil
+	case "subraw":
+		sub := db.Session(&gorm.Session{NewDB: true}).Raw("SELECT id FROM ts WHERE c1 >= @n", sql.Named("n", n%3))
+		return "id IN (?)", []interface{}{sub}
 	case "subq":
 		sub := db.Session(&gorm.Session{NewDB: true}).Table("ts").Select("id").Where("c1 >= ?", n%3)
 		return "id IN (?)", []interface{}{sub}
@@ -71,7 +94,8 @@ func condX(db *gorm.DB, op *Op) (interface{}, []interface{}) {
 	return c + " >= ?", []interface{}{n}
 }
 
-var condForms = []string{"", "", "map", "struct", "ortext", "andtext", "named", "namedmap", "in", "pk", "eq", "andor", "col", "gexpr", "subq"}
+var condForms = []string{"", "", "map", "struct", "ortext", "andtext", "named", "namedmap", "in", "pk", "eq", "andor", "col", "gexpr", "subq",
+	"mapss", "colonly", "nospace", "valuer", "bytes", "structs", "structsel", "inempty", "incols", "exprcol", "subraw"}
 
 func applyXForm(db *gorm.DB, op *Op) (*gorm.DB, bool) {
 	n := op.N
@@ -116,11 +140,20 @@ func applyXForm(db *gorm.DB, op *Op) (*gorm.DB, bool) {
 			return db.Select("id, c2 + @n AS c2", sql.Named("n", n)), true
 		case "mixed":
 			return db.Select("id", 42), true
+		case "strslice":
+			return db.Select("id", []string{"c1", "c3"}), true
+		case "star":
+			return db.Select("*"), true
+		case "tstar":
+			return db.Select("ts.*"), true
 		}
 		return nil, false
 	case "x_omit":
-		if op.Form == "comma" {
+		switch op.Form {
+		case "comma":
 			return db.Omit("c1,c2"), true
+		case "assoc":
+			return db.Omit(clause.Associations), true
 		}
 		return nil, false
 	case "x_clauses":
@@ -143,6 +176,12 @@ func applyXForm(db *gorm.DB, op *Op) (*gorm.DB, bool) {
 			return db.Clauses(clause.Expr{SQL: "c2 <= ?", Vars: []interface{}{n + 3}}), true
 		case "modifier":
 			return db.Clauses(c06Hint{n}), true
+		case "notmulti":
+			return db.Clauses(clause.Where{Exprs: []clause.Expression{clause.Not(clause.Eq{Column: "c1", Value: n % 3}, clause.Expr{SQL: "c3 > ?", Vars: []interface{}{n + 4}})}}), true
+		case "set":
+			return db.Clauses(clause.Set{{Column: clause.Column{Name: "c2"}, Value: n}}), true
+		case "emptyset":
+			return db.Clauses(clause.Set{}), true
 		case "where":
 			return db.Clauses(clause.Where{Exprs: []clause.Expression{clause.Or(clause.Expr{SQL: "c1 = ?", Vars: []interface{}{n}}), clause.Expr{SQL: "c3 > ?", Vars: []interface{}{n}}}}), true
 		}
@@ -209,11 +248,11 @@ func xopExtra(r *lib.Rng) *Op {
 	case 5, 6:
 		return &Op{K: "x_order", Names: []string{col()}, Re: r.Bool(), Form: lib.Pick(r, []string{"col", "orderby", "expr", "reorder"})}
 	case 7, 8:
-		return &Op{K: "x_select", N: n, Form: lib.Pick(r, []string{"slice", "qargs", "named", "mixed"})}
+		return &Op{K: "x_select", N: n, Form: lib.Pick(r, []string{"slice", "qargs", "named", "mixed", "strslice", "star", "tstar"})}
 	case 9:
-		return &Op{K: "x_omit", Form: "comma"}
+		return &Op{K: "x_omit", Form: lib.Pick(r, []string{"comma", "assoc"})}
 	case 10, 11, 12:
-		return &Op{K: "x_clauses", N: n, Form: lib.Pick(r, []string{"locking", "onconflict", "onconflict2", "donothing", "returning", "returning1", "returningall", "expr", "modifier", "where"})}
+		return &Op{K: "x_clauses", N: n, Form: lib.Pick(r, []string{"locking", "onconflict", "onconflict2", "donothing", "returning", "returning1", "returningall", "expr", "modifier", "where", "notmulti", "set", "emptyset"})}
 	case 13, 14:
 		return &Op{K: "x_joins", N: n, Form: lib.Pick(r, []string{"raw", "rel", "inner", "relcond", "relsel"})}
 	case 15:
@@ -225,7 +264,7 @@ func xopExtra(r *lib.Rng) *Op {
 	case 18:
 		return &Op{K: "x_raw", N: n, Form: lib.Pick(r, []string{"", "named", "us"})}
 	}
-	return &Op{K: "x_table", Names: []string{lib.Pick(r, []string{"main.ts", "main.us"})}}
+	return &Op{K: "x_table", Names: []string{lib.Pick(r, []string{"main.ts", "main.us", "ts tt", "us uu"})}}
 }
 
 // finishers added by this file; all writes are dry (Session{DryRun}): bound values without touching the tables
